@@ -117,6 +117,26 @@ def frJson : BFr → Json
 /-- a step: [t_ms, early, [frames]] -/
 def stepJson (s : BStep) : Json := .arr [ratJson s.t, .bool s.early, .arr (s.frames.map frJson)]
 
+mutual
+/-- a visit of the skeleton: "S" | "F" | "W" | "Q" (a Task without request) | "T" | "X" | "P" (a fan-out that launched
+nothing) | {"par": [[…], …], "mc": n} -/
+def tokJson : Tok → Json
+  | .s => .str (S "S")
+  | .f => .str (S "F")
+  | .w => .str (S "W")
+  | .tq => .str (S "Q")
+  | .t => .str (S "T")
+  | .x => .str (S "X")
+  | .fan => .str (S "P")
+  | .par mc bs => .obj [(S "par", .arr (toksJsonL bs)), (S "mc", .num mc)]
+def toksJson : List Tok → List Json
+  | [] => []
+  | t :: ts => tokJson t :: toksJson ts
+def toksJsonL : List (List Tok) → List Json
+  | [] => []
+  | b :: bs => .arr (toksJson b) :: toksJsonL bs
+end
+
 def outcomeJson (o : Outcome) : Json :=
   .obj [(S "status", .str o.status), (S "output", optJ o.output),
         (S "error", match o.error with | some e => .str e | none => .null),
@@ -125,7 +145,8 @@ def outcomeJson (o : Outcome) : Json :=
         (S "log", .arr (o.log.filterMap evShort)), (S "requests", .num o.requests), (S "fanFail", .bool o.fanFail),
         (S "history", .arr (List.zipWith timedJson o.history o.times)), (S "endTime", ratJson o.endTime),
         (S "notifications", .arr (o.notifications.map (fun n => .arr [.str n.1, n.2]))),
-        (S "steps", .arr (o.steps.map stepJson)), (S "tieJoin", .bool o.tieJoin), (S "late", .bool o.late)]
+        (S "steps", .arr (o.steps.map stepJson)), (S "tieJoin", .bool o.tieJoin), (S "late", .bool o.late),
+        (S "sk", .arr (toksJson o.sk))]
 
 mutual
 /-- every payload template and every Choice rule of the definition is inside what the full
